@@ -141,6 +141,81 @@ bool evaluate( const Case& k, mc::Report& rep, bool verbose )
     return fail;
 }
 
+// ---- sequences of resets on one object, as link_layer<> issues them: CONNECT_IND -> reset( map, hop ) ( optionally after a
+// CONNECT_IND that was rejected ), then every LL_CHANNEL_MAP_REQ -> reset( map ).  A rejected call must leave map *and* hop
+// in force, so that a later valid map is accepted and hops with the hop of the connection.
+struct Seq { unsigned prefix; mask_t map0; unsigned hop; int n; mask_t maps[ 3 ]; unsigned rfu[ 3 ]; };   // prefix: 0 none, 1 rejected invalid hop, 2 rejected one-channel map
+
+std::string seq_line( const Seq& q )
+{
+    std::string l = mc::fmt( "seq prefix=%u map0=%s hop=%u n=%d", q.prefix, csa1::hex( q.map0 ).c_str(), q.hop, q.n );
+    for ( int i = 0; i != q.n; ++i ) l += mc::fmt( " m%d=%s/%02x", i, csa1::hex( q.maps[ i ] ).c_str(), q.rfu[ i ] );
+    return l;
+}
+
+bool parse_seq( const std::string& l, Seq& q )
+{
+    unsigned long long m0 = 0; int used = 0;
+    if ( sscanf( l.c_str(), "seq prefix=%u map0=%llx hop=%u n=%d%n", &q.prefix, &m0, &q.hop, &q.n, &used ) != 4 || q.n < 0 || q.n > 3 ) return false;
+    q.map0 = m0;
+    const char* p = l.c_str() + used;
+    for ( int i = 0; i != q.n; ++i )
+    {
+        unsigned long long m = 0; unsigned r = 0; int idx = 0, u = 0;
+        if ( sscanf( p, " m%d=%llx/%x%n", &idx, &m, &r, &u ) != 3 ) return false;
+        q.maps[ i ] = m; q.rfu[ i ] = r; p += u;
+    }
+    return true;
+}
+
+bool evaluate_seq( const Seq& q, mc::Report& rep, bool verbose )
+{
+    mc::Placed< channel_map > cm;
+    cm.construct();
+    bool fail = false;
+    auto report = [&]( const std::string& sig, const std::string& detail ) {
+        if ( verbose ) printf( "    FAIL %s: %s\n", sig.c_str(), detail.c_str() );
+        rep.fail( sig, detail, { seq_line( q ) } ); fail = true;
+    };
+    std::uint8_t b[ 5 ];
+    if ( q.prefix == 1 ) { csa1::to_bytes( csa1::all_channels, b ); if ( cm->reset( b, 3 ) ) { report( "reset-accepts:hop-out-of-range", "prefix" ); return true; } }
+    if ( q.prefix == 2 ) { csa1::to_bytes( mask_t( 1 ) << 9, b ); if ( cm->reset( b, 11 ) ) { report( "reset-accepts:less-than-two-channels", "prefix" ); return true; } }
+    csa1::to_bytes( q.map0, b );
+    if ( !cm->reset( b, q.hop ) )
+    {
+        report( mc::fmt( "reset-sequence:rejects-valid:reset(map,hop):%s", q.prefix ? "after-rejected-reset" : "first" ),
+                mc::fmt( "reset( %s, %u ) rejected%s", csa1::hex( q.map0 ).c_str(), q.hop, q.prefix ? " after a rejected reset( map, hop )" : "" ) );
+        return true;
+    }
+    mask_t in_force = q.map0;
+    bool rejected_before = false, last_rejected = false;
+    std::string history = q.prefix ? "X" : "";
+    for ( int i = 0; i <= q.n && !fail; ++i )
+    {
+        // the table has to be the one of the map in force with the hop of the connection
+        for ( unsigned k = 0; k != 37 && !fail; ++k )
+            if ( cm->data_channel( k ) != csa1::channel( in_force, q.hop, k ) )
+                report( mc::fmt( "reset-sequence:table-wrong:%s", i == 0 ? "after-reset(map,hop)" : last_rejected ? "after-rejected-reset(map)" : rejected_before ? "after-accepted-reset(map)-following-a-rejected-one" : "after-accepted-reset(map)" ),
+                        mc::fmt( "step %d: data_channel(%u) = %u, map in force %s hop %u gives %u", i, k, cm->data_channel( k ), csa1::hex( in_force ).c_str(), q.hop, csa1::channel( in_force, q.hop, k ) ) );
+        if ( i == q.n || fail ) break;
+        csa1::to_bytes( q.maps[ i ], b ); b[ 4 ] |= std::uint8_t( q.rfu[ i ] );
+        const bool valid = csa1::valid_map( q.maps[ i ] );
+        const bool acc = cm->reset( b );
+        if ( verbose ) printf( "  reset( %s ) -> %d ( %d used channels )\n", csa1::hex( q.maps[ i ] ).c_str(), acc, csa1::used_count( q.maps[ i ] ) );
+        if ( acc != valid )
+        {
+            report( mc::fmt( "reset-sequence:%s:reset(map):%s", acc ? "accepts-invalid" : "rejects-valid", rejected_before ? "after-rejected-reset" : "after-accepted-resets-only" ),
+                    mc::fmt( "reset( %s ) ( %d used channels ) returned %d as call %d of the sequence; calls before: %s", csa1::hex( q.maps[ i ] ).c_str(), csa1::used_count( q.maps[ i ] ), acc, i + 1, history.c_str() ) );
+            break;
+        }
+        history += acc ? "A" : "R";
+        if ( acc ) in_force = q.maps[ i ]; else rejected_before = true;
+        last_rejected = !acc;
+    }
+    if ( !fail ) rep.cls( mc::fmt( "reset-sequence:%s%s", q.prefix == 1 ? "bad-hop," : q.prefix == 2 ? "bad-map," : "", ( std::string( "A" ) + history.substr( q.prefix ? 1 : 0 ) ).c_str() ) );
+    return fail;
+}
+
 bool parse_case( const std::string& l, Case& k )
 {
     unsigned long long m = 0, pm = 0; unsigned rfu = 0;
@@ -163,6 +238,15 @@ int main( int argc, char** argv )
         int rc = 0;
         for ( auto& s : rf.steps )
         {
+            if ( s.rfind( "seq ", 0 ) == 0 )
+            {
+                Seq q;
+                if ( !parse_seq( s, q ) ) { printf( "cannot parse step: %s\n", s.c_str() ); continue; }
+                printf( "replaying %s\n", s.c_str() );
+                mc::Report r2; evaluate_seq( q, r2, true );
+                if ( r2.violations.count( rf.sig ) ) { printf( "REPRODUCED %s: %s\n", rf.sig.c_str(), r2.violations[ rf.sig ].detail.c_str() ); rc = 1; }
+                continue;
+            }
             Case k;
             if ( !parse_case( s, k ) ) { printf( "cannot parse step: %s\n", s.c_str() ); continue; }
             printf( "replaying %s\n", s.c_str() );
@@ -177,6 +261,34 @@ int main( int argc, char** argv )
     const std::vector< mask_t > maps = families( sizes );
     for ( auto& kv : sizes ) rep.counters[ "maps new in family " + kv.first ] = kv.second;
     rep.counters[ "maps" ] = maps.size();
+
+    // sequences of up to three LL_CHANNEL_MAP_REQ after the CONNECT_IND: every word over 5 valid and 3 invalid maps
+    {
+        const mask_t one = 1;
+        const mask_t alpha[ 8 ] = { csa1::all_channels, csa1::all_channels & ~( one << 36 ), one | one << 36, 0x0aaaaaaaaaull, ( one << 18 ) - 1,
+                                    0, one << 7, one << 36 };
+        const unsigned alpha_rfu[ 8 ] = { 0, 0xe0, 0, 0, 0, 0, 0, 0xe0 };
+        const mask_t first[ 3 ] = { csa1::all_channels, one << 3 | one << 17 | one << 30, 0x1555555555ull };
+        std::uint64_t nseq = 0;
+        for ( unsigned prefix = 0; prefix != 3; ++prefix )
+            for ( unsigned hop = 5; hop != 17; ++hop )
+                for ( mask_t m0 : first )
+                    for ( int n = 1; n <= 3; ++n )
+                    {
+                        int idx[ 3 ] = { 0, 0, 0 };
+                        for ( ;; )
+                        {
+                            Seq q{ prefix, m0, hop, n, {}, {} };
+                            for ( int i = 0; i != n; ++i ) { q.maps[ i ] = alpha[ idx[ i ] ]; q.rfu[ i ] = alpha_rfu[ idx[ i ] ]; }
+                            ++rep.evaluations; ++rep.traces_validated; ++nseq;
+                            evaluate_seq( q, rep, false );
+                            if ( nseq % 20011 == 0 ) rep.sample( seq_line( q ) );
+                            int d = 0; while ( d != n && ++idx[ d ] == 8 ) idx[ d++ ] = 0;
+                            if ( d == n ) break;
+                        }
+                    }
+        rep.counters[ "reset_sequences" ] = nseq;
+    }
 
     // previous contents: a map that differs from every candidate in most entries
     const mask_t prev_maps[ 2 ] = { csa1::all_channels, ( mask_t( 0x15 ) << 30 ) | 0x2aaaaaa5ull };
@@ -207,7 +319,7 @@ int main( int argc, char** argv )
         if ( ( mi & 255 ) == 0 && a.expired() ) cut = true;
     }
     if ( cut ) { rep.exhaustive = false; rep.notes[ "cut" ] = "deadline or too many signatures"; }
-    rep.notes[ "bound" ] = mc::fmt( "%zu channel maps (families exhaustive within themselves) x RFU bits {00,e0} x ( hop 0..31,32,37,42,48,99,255,261 with reset(map,hop) + hop 5..16 with reset(map) ) x 37 indices",
+    rep.notes[ "bound" ] = mc::fmt( "%zu channel maps (families exhaustive within themselves) x RFU bits {00,e0} x ( hop 0..31,32,37,42,48,99,255,261 with reset(map,hop) + hop 5..16 with reset(map) ) x 37 indices; plus all sequences reset(map,hop) [after none / a rejected one] then 1..3 reset(map) over 5 valid and 3 invalid maps x hop 5..16 x 3 first maps",
                                     maps.size() );
     rep.write( a );
     return 0;
